@@ -1207,6 +1207,9 @@ theorem dictRT_effect [OfNat α 0] (eps : α) {s s' : Store α} {v c : Vec} (h :
   rw [ht, i1, i2, i3, i4, i5] at e
   exact rebuild_ok e n1 n2 h.hit_off
 
+@[simp] theorem peek_fst (w : World α) (k : Nat) (f : Store α → Vec → Out) : (w.peek k f).1 = w := by
+  unfold World.peek; split <;> rfl
+
 theorem step_length_le [OfNat α 0] (eps : α) (w : World α) (op : Op α) :
     w.vecs.length ≤ (step eps w op).1.vecs.length := by
   cases op with
@@ -1222,6 +1225,16 @@ theorem step_length_le [OfNat α 0] (eps : α) (w : World α) (op : Op α) :
     simp only [step, World.spawn]; split
     · exact Nat.le_refl _
     · split <;> simp
+  | getKey k nm => simp [step]
+  | getAttr k nm => simp [step]
+  | read k => simp [step]
+  | setBad k => simp [step]
+  | pyCopy k works =>
+    cases works
+    · simp [step]
+    · simp only [step, if_true, World.spawn]; split
+      · exact Nat.le_refl _
+      · split <;> simp
 
 /-- a transform whose three vectors are three different objects of the world -/
 def Trans.wf (t : Trans) : Prop := t.bc ≠ t.params ∧ t.bc ≠ t.constants
@@ -1251,18 +1264,15 @@ end world
 section hitlemmas
 variable {α : Type} [LinearOrder α] [AddCommGroup α] [IsOrderedAddMonoid α]
 
-/-- the property's conditioning of assigned values: NaN, inside/on the bounds, or outside by more than EPS -/
-def inRegion (eps : α) (x lo hi : XR α) : Bool := x.isNaN || XR.within x lo hi || XR.outsideEps eps x lo hi
-
 theorem elem_hit_iff {eps : α} (heps : 0 ≤ eps) (x l h : XR α) (hb : boundElem l h = true)
-    (hr : inRegion eps x l h = true) : XR.outsideEps eps x l h = true ↔ XR.clipNp x l h ≠ x := by
+    (hr : XR.inRegion eps x l h = true) : XR.outsideEps eps x l h = true ↔ XR.clipNp x l h ≠ x := by
   simp only [boundElem, Bool.and_eq_true, Bool.not_eq_true'] at hb
   cases hx : x.isNaN
   · rw [XR.clipNp_ne_iff x l h hx hb.1.1 hb.1.2 hb.2]
     constructor
     · exact XR.outside_of_outsideEps heps x l h
     · intro ho
-      simp only [inRegion, hx, Bool.false_or, Bool.or_eq_true] at hr
+      simp only [XR.inRegion, hx, Bool.false_or, Bool.or_eq_true] at hr
       rcases hr with hw | he
       · simp only [XR.within, XR.outside, Bool.and_eq_true, Bool.not_eq_true', Bool.or_eq_true] at hw ho
         rcases ho with ho | ho <;> simp_all
@@ -1272,7 +1282,7 @@ theorem elem_hit_iff {eps : α} (heps : 0 ≤ eps) (x l h : XR α) (hb : boundEl
     cases l <;> cases h <;> simp [XR.outsideEps, XR.lt, XR.subEps, XR.addEps]
 
 theorem hitAll_iff {eps : α} (heps : 0 ≤ eps) : ∀ (xs lo hi : List (XR α)), boundsOk lo hi = true →
-    all3 (inRegion eps) xs lo hi = true → xs.length = lo.length → xs.length = hi.length →
+    all3 (XR.inRegion eps) xs lo hi = true → xs.length = lo.length → xs.length = hi.length →
     (hitAll eps xs lo hi = true ↔ clipAll xs lo hi ≠ xs) := by
   intro xs
   induction xs with
